@@ -247,9 +247,30 @@ func vfC11Gather(e *vfEnv, r *vfResult, idx int) { //nolint:cyclop
 	uri, _ := stun.ParseURI("stun:10.255.0.1:3478")
 	stunTO := 15 * time.Millisecond
 	ufrag := func(c int) string { return fmt.Sprintf("cycleufrag%04d", c) }
+	// a third of the histories also gather relay candidates through a TURN server that takes a while to allocate;
+	// half of those have, after the usable TURN URL, one the agent cannot use (no password): the gatherer gives up on
+	// the URL list there, but the cycle's nil must still come after the relay candidate of the allocation it started
+	types := []CandidateType{CandidateTypeHost, CandidateTypeServerReflexive}
+	urls := []*stun.URI{uri}
+	relayMode := rng.IntN(3)
+	if relayMode == 0 {
+		relayMode = 1 + rng.IntN(2)
+		types = append(types, CandidateTypeRelay)
+		turi, _ := stun.ParseURI("turn:10.255.0.9:3478?transport=udp")
+		turi.Username, turi.Password = "user", "pass"
+		urls = append(urls, turi)
+		if relayMode == 2 {
+			bad, _ := stun.ParseURI("turn:10.255.0.10:3478?transport=udp")
+			bad.Username = "user"
+			urls = append(urls, bad)
+		}
+		r.count("c11_gather_histories_with_relay", 1)
+	} else {
+		relayMode = 0
+	}
 	a, err := NewAgent(&AgentConfig{
 		Net: vfSimpleNet(sw, "A", ips...), NetworkTypes: []NetworkType{NetworkTypeUDP4},
-		CandidateTypes: []CandidateType{CandidateTypeHost, CandidateTypeServerReflexive}, Urls: []*stun.URI{uri},
+		CandidateTypes: types, Urls: urls,
 		MulticastDNSMode: MulticastDNSModeDisabled, LoggerFactory: vfQuietLogger(), STUNGatherTimeout: &stunTO,
 		LocalUfrag: ufrag(0), LocalPwd: "cyclepasswordcyclepassword000000",
 	})
@@ -260,6 +281,15 @@ func vfC11Gather(e *vfEnv, r *vfResult, idx int) { //nolint:cyclop
 		return
 	}
 	defer a.Close() //nolint:errcheck
+	if relayMode != 0 {
+		// the allocation is either quick or outlasts everything else in the cycle (STUN timeout 15 ms)
+		delay := time.Duration(200+rng.IntN(3000)) * time.Microsecond
+		if rng.IntN(2) == 0 {
+			delay = time.Duration(18+rng.IntN(22)) * time.Millisecond
+		}
+		tally := &vfTurnTally{sw: sw, relayIP: "198.51.100.77", allocDelay: delay}
+		a.turnClientFactory = tally.factory
+	}
 	type ev struct {
 		nilCand bool
 		ufrag   string
@@ -434,7 +464,14 @@ func vfC11Gather(e *vfEnv, r *vfResult, idx int) { //nolint:cyclop
 			nC++
 		}
 	}
-	r.distinct(fmt.Sprintf("gathercycles/%v/ips%d/slow%v", modes, nIP, slow))
+	if relayMode != 0 {
+		for _, x := range evs {
+			if !x.nilCand && x.typ == CandidateTypeRelay {
+				r.count("c11_relay_candidates_delivered", 1)
+			}
+		}
+	}
+	r.distinct(fmt.Sprintf("gathercycles/%v/ips%d/slow%v/relay%d", modes, nIP, slow, relayMode))
 	_ = nC
 	if idx < 4 {
 		r.sample(wit)
